@@ -40,16 +40,19 @@ CLAIMED = {
    technique='Coq proof over hand model + translated kernels, correspondence check, direct API decision',
    ref='DESIGN.md section 6 C11'),
  'C10': dict(
-   text='PARTIAL proof + direct decision. Proved: std::io contract model with explicit delivery schedules (read_exact result and end position independent of the schedule; '
+   text='PARTIAL proof + direct decision. Proved: (1) for the lossless bit reader (Model/BitReader.v, the only code that looks at how much fill_buf exposes; tied to lossless.rs by the c01model correspondence): '
+        'for EVERY byte string, EVERY pair of fill_buf schedules and EVERY script of fill / read_bits / consume / peek operations the values delivered, the outcome and the observable final state are equal; both refill paths agree; '
+        '(2) std::io contract model with explicit delivery schedules (read_exact result and end position independent of the schedule; '
         'UnexpectedEof for every schedule on short data; write_all output independent of how the sink splits writes; on a sink fault the result is an error and the sink holds a prefix). '
-        'Decided directly on the implementation every run: 8 schedule classes x corpus, one injected fault at every I/O call index, encoder sinks failing at every call / splitting writes.',
-   note='Trusted: Coq kernel; Lib/IO.v is a model of std default methods (read_exact, write_all), not of the OS; the bit reader refill paths are covered by the lossless model when present.',
-   technique='Coq proof over I/O contract model + fault/schedule enumeration on the implementation',
+        'Decided directly on the implementation every run: 8 schedule classes x corpus, one injected fault at every I/O call index with the result compared to the fault-free baseline, encoder sinks failing at every call / splitting writes.',
+   note='Trusted: Coq kernel; Lib/IO.v is a model of std default methods (read_exact, write_all), not of the OS; Model/BitReader.v is a hand model tied by correspondence (scripts under whole / constant / random schedules through a hook); propagation of faults through every `?` of the crate is decided on the implementation, not proved.',
+   technique='Coq proof (schedule independence of the bit reader model for all scripts; I/O contract model) + correspondence + fault/schedule enumeration on the implementation',
    ref='DESIGN.md section 6 C10'),
  'C03': dict(
-   text='PARTIAL proof + direct search. Safety theorems (no Panic outcome = no panic / checked overflow / out-of-range index) for the modelled components: blend kernel, YUV kernels and '
-        'plane writers, alpha loop and predictor (more listed in the evidence as models arrive). All other code is covered by the direct search only: structured mutation of valid files '
-        '(prefixes, every header/size/dimension field, chunk surgery, cross-frame dimension disagreements), full API call sequence, checked build, watchdog.',
+   text='PARTIAL proof + direct search. Safety theorems (no Panic outcome = no panic / checked overflow / out-of-range index) for the modelled components: container layer (every byte string), '
+        'boolean decoder (every string and script), blend kernel, YUV kernels and plane writers, alpha loop and predictor, VP8 loop-filter / transform kernels, VP8L scalar kernels, the lossless bit reader '
+        '(fill, read_bits on every reachable state) and HuffmanTree::build_implicit (every length vector 0..15 up to 5957 symbols: tree or HuffmanError, incl. the debug_assert). All other code is covered by the direct search only: structured mutation of valid files '
+        '(prefixes, every header/size/dimension field, chunk surgery, cross-frame dimension disagreements, VP8L field sabotage), full API call sequence, checked build, watchdog.',
    note='Trusted: Coq kernel, translator, hand models (correspondence-checked). The search is exploration, not proof; the evidence lists which functions are under a theorem.',
    technique='Coq safety proofs for modelled components + structured mutation search on the implementation',
    ref='DESIGN.md section 6 C03'),
@@ -73,7 +76,9 @@ CLAIMED = {
  'C02': dict(
    text='PARTIAL proof. Proved and re-checked against the source-regenerated Gen files every run: every table vp8.rs decodes with equals the normative table (coefficient '
         'probabilities and update probabilities, key-frame mode trees/probabilities incl. the 10x10x9 sub-block contexts, token tree, categories, bands, zig-zag, DC/AC quantisers) '
-        'modulo an explicit bijective renumbering; scalar kernels (avg2/avg3, loop-filter clamps and conversions) equal the reference forms. The interleaved parsing and the '
+        'modulo an explicit bijective renumbering; scalar kernels (avg2/avg3, loop-filter clamps and conversions) equal the reference forms; the imperative kernels translated every run by rs2v_imp '
+        '(simple / sub-block / macroblock edge filters at every edge position of every array, idct4x4, iwht4x4 within the sharp exact-cast bounds) equal Spec.VP8; calculate_filter_parameters = '
+        'Spec filter_strength; the per-segment block of read_quantization_indices = Spec segment_quant (six dequantisation factors) for every expressible header, without overflow. The interleaved parsing and the '
         'workspace/border bookkeeping are NOT proved: they are covered by whole-frame correspondence implementation = Spec.VP8.decode (executable Coq transcription of libwebp, '
         'validated against compiled libwebp each run) on generated key frames, plus native comparison with libwebp.',
    note='Trusted: Coq kernel, rs2v translator, Spec/VP8.v + Spec/VP8Tables.v (hand transcription of libwebp 1.3.1; RFC 6386 text unavailable offline) validated by c02spec, extraction, '
@@ -83,9 +88,11 @@ CLAIMED = {
  'C01': dict(
    text='PARTIAL proof. Proved and re-checked against source-regenerated definitions every run: the decoder\'s tables (120-entry distance map, code-length order, alphabet sizes) and '
         'transform kernels (Average2, ClampAddSubtractFull/Half, ColorTransformDelta mod 256, sub-sampled size) equal the lossless specification\'s for all byte inputs and cannot overflow. '
-        'The structural refinement (bit reservoir, two-level prefix tables, in-place transforms) is NOT proved: it is decided each run by whole-stream correspondence implementation = '
+        'Proved over the Rust-mirroring model (Model/BitReader, Huffman, Lossless; tied by the c01model correspondence through hooks): the bit reader delivers the stream bits LSB first on both refill paths; '
+        'simple prefix codes (0-bit single symbol; two symbols ordered, order of transmission irrelevant, equal symbols collapse); the back-reference copy (16-byte copy_within trick + scalar tail) = overlapping LZ77 copy. '
+        'The remaining structural refinement (two-level prefix tables for normal codes, pixel loop, in-place transforms) is NOT proved: it is decided each run by whole-stream correspondence implementation = '
         'Spec.VP8L.decode (executable Coq transcription of the specification, validated against libwebp each run) on seeded random legal streams covering every feature the property names.',
-   note='Trusted: Coq kernel, rs2v translator, Spec/VP8L.v (hand transcription of the specification), extraction, the legal-stream generator of the harness (checked: libwebp accepts every stream).',
+   note='Trusted: Coq kernel, rs2v translator, Spec/VP8L.v (hand transcription of the specification), hand model Model/{BitReader,Huffman,LosslessTransform,Lossless}.v (correspondence-checked component by component and on whole payloads under fill_buf schedules), extraction, the legal-stream generator of the harness (checked: libwebp accepts every stream).',
    technique='Coq proof (tables + kernels over source-regenerated definitions) + whole-stream correspondence against extracted Coq spec',
    ref='DESIGN.md section 6 C01'),
  'C15': dict(
@@ -125,12 +132,14 @@ CLAIMED = {
    technique='Coq proof (container layout of the encoder model) + byte-exact correspondence + independent strict RIFF parser / libwebp demux in the harness',
    ref='DESIGN.md section 6 C09'),
  'C04': dict(
-   text='PARTIAL proof. Proved: dimensions 0 or > 16384 give InvalidDimensions with nothing written; BitWriter output = LSB-first packing of the (bits,n) fields; run lengths 1..4096 are emitted as tokens '
-        'the specification\'s prefix decoding reads back (no kernel overflow); subtract-green inverse; prefix codes complete and canonical (C14). The full round-trip theorem (composition with the decoder-side '
-        'Spec.VP8L) is NOT proved: the round trip is decided on every generated image by both decoders (this crate and libwebp) returning exactly the input pixels, and output bytes = Model bytes.',
-   note='Trusted: Coq kernel; hand model Model/Encoder.v tied by byte-exact correspondence; generators drive every statistics-dependent branch (constant, two-colour, runs >= 4096/4097, '
-        'Fibonacci tails forcing the 15-bit limit, single symbols, 1xN / Nx1 / 16384-wide).',
-   technique='Coq proof of encoder layers + byte-exact correspondence + round-trip decision through two decoders',
+   text='Coq theorems encode_roundtrip / encode_roundtrip_argb / encode_file_roundtrip (full, no remaining hypothesis): for every image of 1..16384 x 1..16384 pixels, every colour type, '
+        'both predictor settings and EVERY tie-break of the unstable sort, the model of encode_frame succeeds (no panic, no error) and Spec.VP8L (executable transcription of the lossless specification) '
+        'decodes the payload to exactly the input pixels (grey expanded, missing alpha 255) with the same dimensions; payload <= 85 bits/pixel + 9007, so with up to 10^9 bytes of metadata '
+        'WebPEncoder::encode succeeds and writes Spec.WebPFile.lossless_file around that payload; dimensions 0 or > 16384 give InvalidDimensions with nothing written. Six layers '
+        '(bits, prefix symbols, code descriptions, tokens/LZ77 runs, inverse transforms, header + composition) proved separately. libwebp agreement and the own decoder are decided per case by the harness.',
+   note='Trusted: Coq kernel; hand model Model/Encoder.v (+ exact models of std BinaryHeap / sort_unstable) tied by byte-exact correspondence of the encoder output on generated images '
+        '(every statistics-dependent branch: constant, two-colour, runs >= 4096/4097, Fibonacci tails forcing the 15-bit limit, single symbols, 1xN / Nx1 / 16384-wide); Spec/VP8L.v validated against libwebp each run (c01spec).',
+   technique='Coq proof (round trip of the encoder model through the specification decoder, all tie-breaks quantified) + byte-exact correspondence + round-trip decision through two decoders',
    ref='DESIGN.md section 6 C04'),
 }
 PENDING = {}
